@@ -14,7 +14,10 @@ abbrev FrameId := Nat
 abbrev CodeId := Nat
 abbrev FuncId := Nat
 
-/-- class of the last executed opcode, as `handle_return` classifies it -/
+/-- how `handle_return` reads the way the frame was left: from the opcode at `f_lasti` (RETURN_VALUE, RETURN_CONST, YIELD_VALUE,
+    anything else = unwinding), and — since fix 4a9731f — `other` also for a frame that was re-entered by throw() / close() at a
+    YIELD_VALUE no `try` of its own covers and is left at that same instruction with None (CPython unwinds such a frame from the
+    very instruction it was suspended at).  The event recorder of the harness makes this reading from outside the tracer. -/
 inductive Op where | retValue | retConst | yieldValue | other
   deriving DecidableEq, Repr
 
